@@ -511,6 +511,16 @@ func (r *runner) observe() []string {
 		fmt.Fprint(o, " ", v)
 	}
 	fmt.Fprintln(o)
+	// reader state: grapheme state and property of uniseg's packed state (-1 -1 for state -1), forceMergeNext, lastWasRI
+	o = r.maskedWriter(10)
+	{
+		st, fm, ri := r.vt.ReaderState()
+		g, pr := -1, -1
+		if st >= 0 {
+			g, pr = st&15, st>>21
+		}
+		fmt.Fprintf(o, "10 %d %d %d %d\n", g, pr, b2i(fm), b2i(ri))
+	}
 
 	// ---- direct predicates on the implementation ----
 	if !r.crashed && !r.wedged {
